@@ -187,6 +187,16 @@ Arguments Ok {A}. Arguments Err {A}.
 Definition bind {A B} (r : result A) (k : A -> result B) : result B :=
   match r with Ok a => k a | Err e => Err e end.
 
+(* generators that may raise: result (list A) *)
+Definition rcons {A} (a : A) (r : result (list A)) : result (list A) :=
+  match r with Ok l => Ok (a :: l) | Err e => Err e end.
+Definition rapp {A} (l0 : list A) (r : result (list A)) : result (list A) :=
+  match r with Ok l => Ok (l0 ++ l) | Err e => Err e end.
+Definition rbind_app {A} (r0 r : result (list A)) : result (list A) :=
+  match r0 with Ok l0 => rapp l0 r | Err e => Err e end.
+Fixpoint rflat_map {A B} (f : B -> result (list A)) (l : list B) : result (list A) :=
+  match l with [] => Ok [] | b :: t => rbind_app (f b) (rflat_map f t) end.
+
 (* small list helpers used by generated code *)
 Fixpoint upd {A} (l : list A) (i : nat) (v : A) : list A :=
   match l, i with
